@@ -425,6 +425,10 @@ def iter_to_seq(run, it, node):
             run.assume(z3.Length(s) == it.ty.size(it.t))
             run.assume(z3.ForAll([i], z3.Implies(z3.And(0 <= i, i < z3.Length(s)), z3.Select(it.ty.has(it.t), s[i]))))
             run.assume(z3.ForAll([i, j], z3.Implies(z3.And(0 <= i, i < j, j < z3.Length(s)), s[i] != s[j])))
+            # every member is enumerated (position function, as for list(d.keys()))
+            kk = z3.FreshConst(it.ty.k.sort(), "sk")
+            run.assume(z3.ForAll([kk], z3.Implies(z3.Select(it.ty.has(it.t), kk), z3.And(0 <= keypos(s, kk), keypos(s, kk) < z3.Length(s), s[keypos(s, kk)] == kk))))
+            run.assume(z3.ForAll([i], z3.Implies(z3.And(0 <= i, i < z3.Length(s)), keypos(s, s[i]) == i)))
             return Val(sty, s)
     if isinstance(it, Conc) and isinstance(it.obj, tuple):
         if it.obj[0] == "range":
